@@ -239,18 +239,14 @@ func ScanRequest(buf []byte) (st ReqStatus, n int, args [][]byte, why string) {
 	if buf[0] != '*' {
 		i := bytes.IndexByte(buf, '\n')
 		if i < 0 {
-			if len(buf) > 64*1024 {
-				return ReqProtoError, 0, nil, "too big inline request"
-			}
+			// Redis gives up on a line that is still unterminated after 64 KB; the property names no such
+			// bound, and an unterminated line is indistinguishable from a truncated message, so it is "incomplete"
 			return ReqNeedMore, 0, nil, ""
 		}
 		return ReqInline, i + 1, nil, ""
 	}
 	i := bytes.IndexByte(buf, '\n')
 	if i < 0 {
-		if len(buf) > 64*1024 {
-			return ReqProtoError, 0, nil, "too big mbulk count string"
-		}
 		// like Redis, judge a header line only once it is terminated
 		return ReqNeedMore, 0, nil, ""
 	}
@@ -279,9 +275,6 @@ func ScanRequest(buf []byte) (st ReqStatus, n int, args [][]byte, why string) {
 		}
 		j := bytes.IndexByte(buf[pos:], '\n')
 		if j < 0 {
-			if len(buf)-pos > 64*1024 {
-				return ReqProtoError, 0, nil, "too big bulk count string"
-			}
 			return ReqNeedMore, 0, nil, ""
 		}
 		if buf[pos] != '$' {
